@@ -304,6 +304,14 @@ impl<'a> Lifter<'a> {
 
     fn closure1(&mut self, c: &syn::Expr, arg_ty: &str) -> R<(String, Val)> {
         // returns (param name, lifted body)
+        // `f64::exp` etc. in function position is the closure `|x| x.exp()`
+        if let syn::Expr::Path(p) = c {
+            let segs: Vec<String> = p.path.segments.iter().map(|s| s.ident.to_string()).collect();
+            if segs.len() == 2 && segs[0] == "f64" {
+                let synth: syn::Expr = syn::parse_str(&format!("|x__| x__.{}()", segs[1])).map_err(|e| e.to_string())?;
+                return self.closure1(&synth, arg_ty);
+            }
+        }
         let syn::Expr::Closure(cl) = c else { return unsupported("expected closure", c) };
         if cl.inputs.len() != 1 {
             return unsupported("closure arity", c);
@@ -847,7 +855,45 @@ impl<'a> Lifter<'a> {
                 if init.diverge.is_some() {
                     return unsupported("let-else", &l.pat);
                 }
-                let x = self.expr(&init.expr)?;
+                // L18: `let s = <array>.sum();` binds the summand array as `s__terms` (observable), so that
+                // contracts can speak about the terms of a sum without repeating the lifted expression
+                let mut terms: Option<(String, Val)> = None;
+                if let (syn::Expr::MethodCall(m), syn::Pat::Ident(pi)) = (&*init.expr, &l.pat) {
+                    if m.method == "sum" && m.args.is_empty() {
+                        let recv = self.expr(&m.receiver)?;
+                        if recv.ty == "RArr" {
+                            let tname = format!("{}__terms", pi.ident);
+                            if self.observe.as_deref() == Some(tname.as_str()) {
+                                if self.ret_ty.starts_with("Result<") {
+                                    return Ok(v(format!("{{ let {tname} = {}; Ok::<RArr, LErr>({tname}) }}", recv.text), "Result<RArr, LErr>"));
+                                }
+                                return Ok(v(format!("{{ let {tname} = {}; {tname} }}", recv.text), "RArr"));
+                            }
+                            self.bind(&tname, "RArr");
+                            self.note("L18", l.span(), "summand array of a bound sum is bound as `<name>__terms`");
+                            terms = Some((tname, recv));
+                        }
+                    }
+                }
+                let x = match &terms {
+                    Some((tname, _)) => v(format!("rsum({tname}.len, {tname}.at)"), "real"),
+                    None => self.expr(&init.expr)?,
+                };
+                if let Some((tname, recv)) = terms {
+                    // emit `{ let s__terms = ..; <the ordinary let for s and the rest> }`
+                    let pat_name = match &l.pat { syn::Pat::Ident(pi) => pi.ident.to_string(), _ => unreachable!() };
+                    self.bind(&pat_name, "real");
+                    if let Some(obs) = self.observe.clone() {
+                        if pat_name == obs {
+                            if self.ret_ty.starts_with("Result<") {
+                                return Ok(v(format!("{{ let {tname} = {}; {{ let {pat_name} = {}; Ok::<real, LErr>({pat_name}) }} }}", recv.text, x.text), "Result<real, LErr>"));
+                            }
+                            return Ok(v(format!("{{ let {tname} = {}; {{ let {pat_name} = {}; {pat_name} }} }}", recv.text, x.text), "real"));
+                        }
+                    }
+                    let r = self.rest(rest, cont)?;
+                    return Ok(v(format!("{{ let {tname} = {}; {{ let {pat_name} = {}; {} }} }}", recv.text, x.text, r.text), &r.ty));
+                }
                 let mut ty = x.ty.clone();
                 let pat = match &l.pat {
                     syn::Pat::Type(pt) => {
@@ -904,7 +950,15 @@ impl<'a> Lifter<'a> {
                 }
                 self.effect_stmt(e, rest, cont)
             }
-            syn::Stmt::Macro(m) => unsupported("macro statement", &m.mac.path),
+            syn::Stmt::Macro(m) => {
+                // L19: logging macros have no effect on values
+                let mname = m.mac.path.segments.last().map(|s| s.ident.to_string()).unwrap_or_default();
+                if ["log_iter", "log_result", "println", "eprintln", "debug_assert", "debug_assert_eq"].contains(&mname.as_str()) {
+                    self.note("L19", m.mac.span(), "logging / debug macro dropped");
+                    return self.rest(rest, cont);
+                }
+                unsupported("macro statement", &m.mac.path)
+            }
             syn::Stmt::Item(_) => Err("construct outside rule list (lift): nested item".into()),
         }
     }
@@ -1666,12 +1720,51 @@ pub fn lift_fn(ctx: &mut Ctx, blk: &Block) -> Result<(String, Value), String> {
         out_param = None;
     }
     let mut outputs: Vec<(String, Option<String>)> = if blk.flag("observe_only") { vec![] } else { vec![(name.clone(), None)] };
+    // names the function binds (for `x__terms`: a `let x = <array>.sum();`)
+    let bound_names: Vec<String> = {
+        struct B(Vec<String>);
+        impl<'ast> syn::visit::Visit<'ast> for B {
+            fn visit_pat_ident(&mut self, i: &'ast syn::PatIdent) {
+                self.0.push(i.ident.to_string());
+            }
+            fn visit_local(&mut self, l: &'ast syn::Local) {
+                if let (Some(init), syn::Pat::Ident(pi)) = (&l.init, &l.pat) {
+                    if let syn::Expr::MethodCall(m) = &*init.expr {
+                        if m.method == "sum" && m.args.is_empty() {
+                            self.0.push(format!("{}__terms", pi.ident));
+                        }
+                    }
+                }
+                syn::visit::visit_local(self, l);
+            }
+        }
+        let mut b = B(vec![]);
+        syn::visit::Visit::visit_block(&mut b, f.block);
+        b.0
+    };
+    let mut text = String::new();
+    let mut unbound_notes: Vec<(String, usize, String)> = Vec::new();
     if let Some(obs) = blk.opt("observe") {
         for o in obs.split(',') {
+            let (o, decl_ty) = match o.split_once(':') {
+                Some((a, t)) => (a.trim(), Some(t.trim().to_string())),
+                None => (o.trim(), None),
+            };
+            if !bound_names.iter().any(|b| b == o) {
+                // L17b: an observable the function no longer binds is an arbitrary value of its declared type,
+                // so that the contract about it fails or holds on its own merits
+                let Some(t) = decl_ty else {
+                    return Err(format!("lost anchor: observable `{o}` is not bound in {path}"));
+                };
+                let rty = if ret_ty.starts_with("Result<") { format!("Result<{t}, LErr>") } else { t };
+                let ps: Vec<String> = params.iter().map(|(n, t)| format!("{n}: {t}")).collect();
+                text.push_str(&format!("pub uninterp spec fn {name}__{o}({}) -> {rty};   // L17b: `{o}` is not bound by the function\n", ps.join(", ")));
+                unbound_notes.push(("L17b".into(), 0, format!("observable `{o}` is not bound by the function: arbitrary value")));
+                continue;
+            }
             outputs.push((format!("{name}__{o}"), Some(o.to_string())));
         }
     }
-    let mut text = String::new();
     let mut notes_all: Vec<(String, usize, String)> = Vec::new();
     let mut havocs_all: Vec<String> = Vec::new();
     let mut result_tys = Vec::new();
@@ -1722,6 +1815,7 @@ pub fn lift_fn(ctx: &mut Ctx, blk: &Block) -> Result<(String, Value), String> {
     let ptys: Vec<String> = params.iter().map(|(_, t)| t.clone()).collect();
     let key = name.clone();
     let (s0, e0) = (offs.range(&src, f.sig.span()).0, offs.range(&src, f.block.span()).1);
+    notes_all.extend(unbound_notes);
     let rewrites: Vec<Value> = notes_all.iter().map(|(r, l, n)| json!({"rule": r, "line": l, "note": n})).collect();
     let rep = json!({
         "item": path, "file": file, "mode": "lift",
